@@ -11,7 +11,8 @@ from .c13 import build_from_state
 
 RULE = ("a generated polynomial curve is reduced to its certified minimal form by the reference (oracle.minimal_form); "
         "the library then refines that minimal curve by a generated history of 1..5 knot_insert / degree_increase "
-        "calls in any order and cleans it by a generated order of knot_clean / degree_clean / clean calls; after every "
+        "calls in any order and cleans it by a generated order of knot_clean / degree_clean / clean calls (default "
+        "tolerance, explicit tolerances, or knot_clean given every knot, both ends and one non-knot explicitly); after every "
         "clean call: same function, idempotent; knot_clean / degree_clean leave nothing exactly removable; after "
         "clean(): knot vector and control points identical to the minimal form. Arbitrary (also rational) curves: "
         "function preserved, idempotent. Non-trivial: a history containing both an insertion and an elevation, or an "
